@@ -170,11 +170,13 @@ static void do_handshake(int peer, vs_buf *b, int minor, int choice, const char 
 }
 
 static rfbCursorPtr make_cursor(int k) {
-  int w = k == 1 ? 8 : (k == 2 ? 1 : 17), h = k == 1 ? 8 : (k == 2 ? 1 : 9), i;
+  /* 1: 8x8, 2: 1x1 transparent, 3: 17x9 with hot spot, 4: 1x0, 5: 0x1, 6: 0x0 (degenerate sizes), 7: 3x0 with hot spot */
+  int w = k == 1 ? 8 : (k == 2 ? 1 : (k == 4 ? 1 : (k == 5 || k == 6 ? 0 : (k == 7 ? 3 : 17))));
+  int h = k == 1 ? 8 : (k == 2 ? 1 : (k == 4 || k == 6 || k == 7 ? 0 : (k == 5 ? 1 : 9))), i;
   char *src = malloc(w * h + 1), *msk = malloc(w * h + 1);
   for (i = 0; i < w * h; i++) { src[i] = (i % 3) ? 'x' : ' '; msk[i] = (k == 2) ? ' ' : 'x'; }
   src[w * h] = msk[w * h] = 0;
-  { rfbCursorPtr c = rfbMakeXCursor(w, h, src, msk); c->xhot = k == 3 ? 2 : 0; c->yhot = k == 3 ? 3 : 0; c->cleanup = FALSE; return c; }
+  { rfbCursorPtr c = rfbMakeXCursor(w, h, src, msk); free(src); free(msk); c->xhot = k == 3 ? 2 : (k == 7 ? 1 : 0); c->yhot = k == 3 ? 3 : 0; c->cleanup = FALSE; return c; }
 }
 
 static unsigned lcg(unsigned *s) { *s = *s * 1664525u + 1013904223u; return *s >> 8; }
